@@ -25,11 +25,16 @@ What is proved (Lemmas/CliRunAll.lean has the helper lemmas):
   – the same report up to the order of the file records –, and for a sorted type whose records have
   pairwise distinct displayed paths they are the SAME BYTES (`C02_run_perm_sorted_bytes`), for all
   seven types. Hypotheses: the parsers' results are maps (`InputsWF`, what the Rust types
-  guarantee), the inputs agree on function start lines (`StartsAgree`: the property's own
-  exception), and the function table iterates in an order determined by its content
-  (`FnsByContent`); `C02_run_perm_fn_order_witness` shows the last one is needed in the model
-  (insertion order shows through) – the real table is a hash map, the correspondence runs compare
-  the function records of a file as a set;
+  guarantee) and the inputs agree on function start lines (`StartsAgree`: the property's own
+  exception). Since fix 73c9152 every writer lists the functions of a file in name order
+  (`sorted_functions`; `Cli.sortFns` in the model), so NOTHING is assumed about the iteration order
+  of the function table any more; `C02_run_old_fn_order_regression` keeps the old behaviour
+  (insertion order shows through) as a closed regression example about the old writer;
+* **schedule independence of the bytes** (`C02_run_schedule_sorted_bytes`): for a sorted type the
+  report bytes of the model run on the inputs in ANY merge order a real schedule can produce are
+  those of `run` on the inputs as listed – this is what the `runpair` stream of harness/c02
+  compares on the real binary (two runs with different `--threads`, argument order and
+  perturbation seed are byte-identical after sorting the FILE records only);
 * **the report decodes to the records it was written from**, type by type, with the strict readers
   of C03/C04/C18 (`C02_run_decodes_lcov`, `_files`, `_coveralls`, `_covdir`, `_cobertura`, `_ade`);
 * for lcov inputs, lcov output and no `--excl-*` option the run is `Cli.run` of C05/C06
@@ -208,17 +213,18 @@ run's outcome is the writer's outcome on its list – the same report up to the 
 records; and if the type is sorted and the displayed absolute paths of the records are pairwise
 distinct the two lists are the same list. All seven types, all options. -/
 theorem C02_run_perm (o : Opts) (w : World) (ins₁ ins₂ : List Input) (hwf : InputsWF o ins₁)
-    (hag : StartsAgree o w ins₁) (hh : o.hash.OK) (hf : o.hash.FnsByContent) (p : ins₁.Perm ins₂) :
+    (hag : StartsAgree o w ins₁) (hh : o.hash.OK) (p : ins₁.Perm ins₂) :
     (∃ s₁ s₂, run o w ins₁ = .panic s₁ ∧ run o w ins₂ = .panic s₂) ∨
     ∃ L₁ L₂ : List Rec, L₁.Perm L₂ ∧ run o w ins₁ = render o L₁ ∧ run o w ins₂ = render o L₂ ∧
       (sortedFor o = true → (L₁.map MainGlue.sortKey).Nodup → L₁ = L₂) :=
-  run_perm o w hwf hag hh hf p
+  run_perm o w hwf hag hh p
 
 /-- **Sorted types are byte-identical.** If the type is listed in `--sort-output-types` and no two
 reported files have the same displayed absolute path, every permutation of the inputs gives the
-same outcome – the same report bytes. -/
+same outcome – the same report bytes, function records included (no hypothesis on the order of the
+function table: the writers sort it by name). -/
 theorem C02_run_perm_sorted_bytes (o : Opts) (w : World) (ins₁ ins₂ : List Input) (hwf : InputsWF o ins₁)
-    (hag : StartsAgree o w ins₁) (hh : o.hash.OK) (hf : o.hash.FnsByContent) (p : ins₁.Perm ins₂)
+    (hag : StartsAgree o w ins₁) (hh : o.hash.OK) (p : ins₁.Perm ins₂)
     (hs : sortedFor o = true)
     (hd : ∀ rs, records o w ins₁ = .ok rs → (rs.map MainGlue.sortKey).Nodup) :
     run o w ins₁ = run o w ins₂ ∨ ∃ s₁ s₂, run o w ins₁ = .panic s₁ ∧ run o w ins₂ = .panic s₂ := by
@@ -229,7 +235,7 @@ theorem C02_run_perm_sorted_bytes (o : Opts) (w : World) (ins₁ ins₂ : List I
     | some s₂ => exact Or.inr ⟨s₁, s₂, by simp [run, hc₁], by simp [run, hc₂]⟩
   | none =>
     have hc₂ := (crash_perm o.branch p).1 hc₁
-    rcases records_perm o w hwf hag hf p with ⟨s₁, s₂, e₁, e₂⟩ | ⟨rs₁, rs₂, e₁, e₂, pp⟩
+    rcases records_perm o w hwf hag p with ⟨s₁, s₂, e₁, e₂⟩ | ⟨rs₁, rs₂, e₁, e₂, pp⟩
     · exact Or.inr ⟨s₁, s₂, by simp [run, hc₁, e₁], by simp [run, hc₂, e₂]⟩
     · left
       have hnd := hd rs₁ e₁
@@ -385,11 +391,11 @@ theorem C02_run_lcov_end_to_end (o : Opts) (w : World) (ins : List Input) (B : L
           unfold Lcov.nonEmptyVecs
           rw [get?_filter _ (Grcov.Cli.nodupKeys_sortByKey _ hnd.2), get?_sortByKey' _ hnd.2,
             FileFilter.applyFilters_branches]
-        · show get? (o.hash.fns _) n = _
-          have hp := hh.fnsPerm ⟨abs, rel, applyFilters (filterList o w abs) c⟩
+        · show get? (Grcov.Cli.sortFns (applyFilters (filterList o w abs) c).functions) n = _
           have hfn : (applyFilters (filterList o w abs) c).functions = c.functions :=
             FileFilter.applyFilters_functions _ _
-          rw [get?_perm hp (nodupKeys_perm hp.symm (by rw [hfn]; exact hcw.functionsNodup)) n, hfn]
+          have hp := Grcov.Cli.sortFns_perm c.functions
+          rw [hfn, get?_perm hp (nodupKeys_perm hp.symm hcw.functionsNodup) n]
 
 /-! ### conservative extension of `Cli.run` -/
 
@@ -481,29 +487,46 @@ def sortedReport : Lcov.Bytes :=
    110, 100, 95, 111, 102, 95, 114, 101, 99, 111, 114, 100, 10]
 def w0 : World := { fs := { files := [], dirs := [], cwd := [] }, text := fun _ => none }
 def lcovSorted : Grcov.Cli.RunAll.Opts := { out := .lcov, branch := true, sortTypes := [.lcov] }
-def lcovSortedByName : Grcov.Cli.RunAll.Opts := { lcovSorted with hash := HashOrder.byName }
+/-- a record as the writers walked it BEFORE fix 73c9152: functions in the iteration order of the
+table (in the model: insertion order) -/
+def presentOld (r : Rec) : Rec :=
+  { r with cov := { lines := Grcov.Cli.sortByKey r.cov.lines, branches := Grcov.Cli.sortByKey r.cov.branches
+                    functions := r.cov.functions } }
+/-- the run with the old writers -/
+def runOld (o : Grcov.Cli.RunAll.Opts) (w : World) (ins : List Input) : Res Lcov.Bytes :=
+  match records o w ins with
+  | .panic s => .panic s
+  | .ok rs => render o ((ordered o rs).map presentOld)
 end RunWit
 open RunWit
 
-/-- The content hypothesis on the function table is needed in the model: with the table iterating
-in INSERTION order (the default `hash`), `a.c` described by `l1` (function `f`) and `l3` (function
-`g`) is reported with `FN:1,f` before `FN:2,g` or after it depending on the order of the inputs –
-the sorted lcov reports differ, in the order of the function records only (both have the same
-length, and with the table in name order they are equal). -/
-theorem C02_run_perm_fn_order_witness :
-    run lcovSorted w0 [.lcov l1, .lcov l3] ≠ run lcovSorted w0 [.lcov l3, .lcov l1] ∧
-    run lcovSortedByName w0 [.lcov l1, .lcov l3] = run lcovSortedByName w0 [.lcov l3, .lcov l1] := by
+/-- Regression example about the OLD writers (before fix 73c9152 they listed the functions of a file
+in the iteration order of the function table): `a.c` described by `l1` (function `f`) and `l3`
+(function `g`) was reported with `FN:1,f` before `FN:2,g` or after it depending on the order in
+which the inputs were merged – the SORTED lcov reports of the two orders differed. With the writers
+of the fix (`run`) the two reports are the same bytes, as `C02_run_perm_sorted_bytes` says. -/
+theorem C02_run_old_fn_order_regression :
+    runOld lcovSorted w0 [.lcov l1, .lcov l3] ≠ runOld lcovSorted w0 [.lcov l3, .lcov l1] ∧
+    run lcovSorted w0 [.lcov l1, .lcov l3] = run lcovSorted w0 [.lcov l3, .lcov l1] := by
   decide +kernel
 
 /-- non-vacuity of `C02_run_perm` / `C02_run_perm_sorted_bytes`: two tracefiles and a JaCoCo report
-that overlap in `a.c` meet the hypotheses (parser results are maps, start lines agree, name-ordered
-function table), the sorted lcov run on them succeeds with pairwise distinct paths, and – as the
-theorem says – a permutation of the inputs writes the same bytes -/
-example : InputsWF lcovSortedByName [.lcov l1, .jacoco j1, .lcov l2] ∧
-    StartsAgreeB lcovSortedByName w0 [.lcov l1, .jacoco j1, .lcov l2] ∧
-    sortedFor lcovSortedByName = true ∧
-    run lcovSortedByName w0 [.lcov l1, .jacoco j1, .lcov l2] = .ok sortedReport ∧
-    run lcovSortedByName w0 [.lcov l2, .lcov l1, .jacoco j1] = .ok sortedReport := by
+that overlap in `a.c` meet the hypotheses (parser results are maps, start lines agree), the sorted
+lcov run on them succeeds with pairwise distinct paths, and – as the theorem says – a permutation of
+the inputs writes the same bytes -/
+example : InputsWF lcovSorted [.lcov l1, .jacoco j1, .lcov l2] ∧
+    StartsAgreeB lcovSorted w0 [.lcov l1, .jacoco j1, .lcov l2] ∧
+    sortedFor lcovSorted = true ∧
+    run lcovSorted w0 [.lcov l1, .jacoco j1, .lcov l2] = .ok sortedReport ∧
+    run lcovSorted w0 [.lcov l2, .lcov l1, .jacoco j1] = .ok sortedReport := by
+  decide +kernel
+
+/-- … and with three inputs that name different functions of `a.c` (`f` in `l1`, `g` in `l3`): all
+six orders of the inputs write the same sorted report -/
+example : ∀ p ∈ [[Input.lcov l1, .lcov l3, .lcov l2], [.lcov l1, .lcov l2, .lcov l3],
+      [.lcov l3, .lcov l1, .lcov l2], [.lcov l3, .lcov l2, .lcov l1], [.lcov l2, .lcov l1, .lcov l3],
+      [.lcov l2, .lcov l3, .lcov l1]],
+    run lcovSorted w0 p = run lcovSorted w0 [.lcov l1, .lcov l2, .lcov l3] := by
   decide +kernel
 
 /-- unsorted covdir: the bytes do not depend on the order of the inputs either (the children of a
